@@ -59,10 +59,54 @@ def cut_statistics(on=True):
         PeerStats.add_received_req, PeerStats.add_processed_req_time, PeerStats.add_sent_result_code = PeerStats._orig_methods
 
 
+class SelfDeadlock(RuntimeError):
+    pass
+
+
+class OneThreadLock:
+    """threading.Lock double for benches that run every thread body as a plain call: acquiring it while it is held can
+    only be the same flow of control taking a non-reentrant lock twice - a thread that would block for ever"""
+
+    def __init__(self):
+        self.held = False
+
+    def acquire(self, blocking=True, timeout=-1):
+        if self.held:
+            raise SelfDeadlock("non-reentrant lock taken twice by the same thread: it would block for ever")
+        self.held = True
+        return True
+
+    def release(self):
+        self.held = False
+
+    def locked(self):
+        return self.held
+
+    def __enter__(self):
+        self.acquire()
+        return self
+
+    def __exit__(self, *a):
+        self.held = False
+        return False
+
+    # cooperative protocol (engine.coop) - a blocked `with` yields instead
+    def coop_try_acquire(self):
+        if self.held:
+            return False
+        self.held = True
+        return True
+
+    def coop_release(self):
+        self.held = False
+
+
 class Bench:
     def __init__(self, n_peers=1, apps=((4, "auth"),), app_peers=None, realms=None, persistent=False, with_ips=True, default_peers=(), stats=False):
         cut_statistics(not stats)
         self.node = Node(NODE_HOST, REALM, ip_addresses=["10.0.0.1"], tcp_port=3868, vendor_ids=[10415])
+        if hasattr(self.node, "_busy_lock"):
+            self.node._busy_lock = OneThreadLock()
         self.peers = []
         for i in range(n_peers):
             p = self.node.add_peer("aaa://" + PEER_HOSTS[i], REALM, ip_addresses=["10.0.1.%d" % (i + 1)] if with_ips else None,
